@@ -1,6 +1,7 @@
 import NriModel.Props.C03
 import NriModel.Props.C04
 import NriModel.Props.C01
+import NriModel.Props.C05
 /-!
 # Plugins as functions of what they are shown: NRI is a pipeline of spec transformers
 
@@ -19,7 +20,8 @@ handlers actually give (`responsesAlong`):
 * `pipeline_reply` (C03 lifted) — the spec the runtime obtains from the combined reply is
   `SpecEq` to the spec obtained by a *pipeline*: apply `f₀` to the original, apply its adjustment
   to the spec, show the next plugin the overlaid container, apply its adjustment, …;
-* `pipeline_update_views` (C04 lifted, update requests), `pipeline_no_silent_merge` (C01 lifted);
+* `pipeline_update_views` (C04 lifted, update requests), `pipeline_no_silent_merge` (C01 lifted),
+  `pipeline_exact_fields` (C05 lifted);
 * `pipeline_views` (C04 lifted) — at every position the container handed to handler *i*
   `ViewAgrees` with the spec the generator makes of the reply combined so far.
 
@@ -194,6 +196,18 @@ theorem pipeline_update_views (id : Cid) (req : Resources) (hs : List (Plugin ×
         (specBase (.update id) req) id := by
   rw [viewsF_eq_viewsAlong] at h
   exact C04.C04_update_dropped id req _ i s h
+
+/-- **C05 (value clause) for plugins that look at what they are shown.** After a successful
+    request over handlers every returned update entry carries exactly what the specification
+    walk yields for its target over the answers given along the way. -/
+theorem pipeline_exact_fields (st0 st' : State) (req : Resources) (hs : List (Plugin × Handler))
+    (hinit : (∃ id, st0 = initUpdate id req) ∨ st0 = initStop ∨ ∃ c0, st0 = initCreate c0)
+    (h : runF Quirks.fixed st0 hs = .ok st') :
+    ∀ e, some e ∈ replyUpdates st' →
+      e.resources = some ((walk (specBase st0.kind req) (answered (responsesAlong Quirks.fixed st0 hs))).get
+        (specBase st0.kind req) e.containerId) := by
+  rw [runF_eq_run] at h
+  exact C05.C05_exact_fields_dropped st0 st' req _ hinit h
 
 /-- **C01 for plugins that look at what they are shown.** When a request over handlers succeeds,
     no item was strictly set by two of the answers given along the way without a removal from
